@@ -26,6 +26,7 @@
 -/
 import FwdVerif.Lemmas.C18f
 import FwdVerif.Lemmas.C18g
+import FwdVerif.Lemmas.C18h
 
 namespace FwdVerif
 namespace C18
@@ -1117,6 +1118,189 @@ theorem c18_text_handler_before_martian_witness :
       classifyT (handlersWith 6 statusSuffixHandler) true (loopErr tail) = (502, "https_status_text") ∧
       classifyT (handlersWith 6 (suffixHandler (bs "EOF") 502 "unexpected_eof")) false
           (loopErr (bs "1.1 fwd-0123456789abcdef0123, 1.1 p (unexpected EOF")) = (502, "unexpected_eof") := by
+  decide +kernel
+
+/-! ## J. The identity of an instance is fixed at construction
+
+  `Model/C18Tag.lean`: the look-up of the instance's tag by the requests passing through the Via
+  modifier, one step of one request at a time, under ANY schedule.  `constructEager` is the code
+  (`NewViaModifier` draws the boundary; the tag is written before the modifier is shared) —
+  `tag : Instance → Tag` depends on neither the request history nor the schedule.  The harness
+  releases bursts of very first requests at many fresh instances (stack level and whole proxies) and
+  asserts what these theorems say: one element per instance, ever, and every burst request is refused
+  when it comes back. -/
+
+/-- For any number of first requests and ANY interleaving of their steps: the modifier's cell never
+    changes, every request that holds a tag holds the constructor's, every request that has taken a
+    step holds it (the look-up is a single read), and so at most one tag is ever in use. -/
+theorem c18_tag_fixed_at_construction (name : Bytes) (rnd : Nat → Bytes) (n : Nat) (sched : List Nat) :
+    (tagRun name rnd (constructEager name rnd n) sched).cell = some (mkTag name (rnd 0)) ∧
+      (∀ k t, tagOf (tagRun name rnd (constructEager name rnd n) sched) k = some t →
+        t = mkTag name (rnd 0)) ∧
+      (∀ k, k < n → k ∈ sched →
+        tagOf (tagRun name rnd (constructEager name rnd n) sched) k = some (mkTag name (rnd 0))) ∧
+      distinctTags (tagRun name rnd (constructEager name rnd n) sched) ≤ 1 := by
+  have hinv := tagFixed_run (name := name) (rnd := rnd) sched (tagFixed_construct name rnd n)
+  have hall : ∀ k t, tagOf (tagRun name rnd (constructEager name rnd n) sched) k = some t →
+      t = mkTag name (rnd 0) := by
+    intro k t ht
+    have hm := List.mem_of_getElem? (tagOf_eq_some.mp ht)
+    rcases hinv.2 _ hm with h0 | h0
+    · cases h0
+    · cases h0; rfl
+  refine ⟨hinv.1, hall, fun k hk hs => ?_, ?_⟩
+  · apply tagOf_eq_some.mpr
+    apply tagFixed_run_holds sched (tagFixed_construct name rnd n) _ hs
+    simpa [constructEager] using hk
+  · apply eraseDups_length_le_one (a := mkTag name (rnd 0))
+    intro t ht
+    rcases hinv.2 _ (mem_tagsHeld.mp ht) with h0 | h0
+    · cases h0
+    · cases h0; rfl
+
+example : (tagRun (bs "fwd") rndW (constructEager (bs "fwd") rndW 3) [0, 1, 0, 1, 0, 1, 2]).reqs =
+      [.has tagW, .has tagW, .has tagW] ∧
+    distinctTags (tagRun (bs "fwd") rndW (constructEager (bs "fwd") rndW 3) [2, 0, 1]) = 1 := by
+  decide +kernel
+
+/-- Pipeline level, over schedules: whatever the interleaving of an instance's first requests, the
+    request of ANY of them (`k₁`) is forwarded with the constructor's element after the chain it
+    carried, and when that message comes back — during the burst or at any later time, to be judged
+    with the tag whichever request `k₂` holds — it is not forwarded again: `400 loop`. -/
+theorem c18_first_requests_loop_cut (name : Bytes) (rnd : Nat → Bytes) (n : Nat) (sched : List Nat)
+    (base : Cfg) {k₁ k₂ : Nat} {t₁ t₂ : Bytes}
+    (h₁ : tagOf (tagRun name rnd (constructEager name rnd n) sched) k₁ = some t₁)
+    (h₂ : tagOf (tagRun name rnd (constructEager name rnd n) sched) k₂ = some t₂)
+    (hname : name.all isTokenByte = true) (hshape : TagShape name (mkTag name (rnd 0)))
+    {ctx ctx' : Ctx} {r : Request} {hop : Hop} {out : OutMsg}
+    (h : processRequest { base with tag := t₁ } ctx r = .forwarded hop out)
+    (hr : rulesAvoidVia base.rules = true) (hn : viaNominated r.fields = false)
+    (hn' : viaNominated (reinject out).fields = false) :
+    viaElements (outVia out) =
+        viaElements (viaLines r.fields) ++ [ownElement (mkTag name (rnd 0)) r.minor] ∧
+      isForwarded (processRequest { base with tag := t₂ } ctx' (reinject out)) = false ∧
+      (reachesVia { base with tag := t₂ } ctx' (reinject out) = true →
+        processRequest { base with tag := t₂ } ctx' (reinject out) = .refused 400 .loop) := by
+  obtain ⟨_, hall, _, _⟩ := c18_tag_fixed_at_construction name rnd n sched
+  have e₁ := hall k₁ t₁ h₁
+  have e₂ := hall k₂ t₂ h₂
+  subst e₁ e₂
+  exact ⟨c18_chain_kept_full h hr hn (hshape.clean hname), c18_self_loop_terminates h hr hn'⟩
+
+example : tagOf (tagRun (bs "fwd") rndW (constructEager (bs "fwd") rndW 3) [0, 1, 2]) 0 = some tagW ∧
+    tagOf (tagRun (bs "fwd") rndW (constructEager (bs "fwd") rndW 3) [0, 1, 2]) 2 = some tagW ∧
+    tagShape (bs "fwd") (mkTag (bs "fwd") (rndW 0)) = true ∧
+    isForwarded (processRequest { cfgWhttps with tag := tagW } ctxW reqPlain) = true := by decide +kernel
+
+/-- The counter-model in general: a tag drawn LAZILY by the first request with load, generate and
+    store as separate steps (no compare-and-swap) — two first requests that both load before either
+    stores hold two different tags; the second store is what the instance calls itself from then on. -/
+theorem c18_lazy_two_first_requests_two_tags (name : Bytes) (rnd : Nat → Bytes) (hr : rnd 0 ≠ rnd 1) :
+    tagsHeld (tagRun name rnd (constructLazy 2) [0, 1, 0, 1, 0, 1]) =
+        [mkTag name (rnd 0), mkTag name (rnd 1)] ∧
+      mkTag name (rnd 0) ≠ mkTag name (rnd 1) ∧
+      (tagRun name rnd (constructLazy 2) [0, 1, 0, 1, 0, 1]).cell = some (mkTag name (rnd 1)) := by
+  refine ⟨rfl, fun h => hr ?_, rfl⟩
+  have := List.append_cancel_left h
+  exact (List.cons.inj this).2
+
+/-- Witness (NOT the code): with the lazily drawn tag, two first requests released together are
+    forwarded with `tagW` and `tagX`, and the instance is `tagX` from then on (request 2 arrives later);
+    the message request 0 was forwarded with comes back to the instance and is forwarded AGAIN — its
+    loop is not cut at the first repetition.  One after the other (what a scenario does that probes a
+    started instance) the same requests all hold one tag: the difference shows only in the schedule.
+    The code's construction under the same schedule: one tag, the loop cut. -/
+theorem c18_lazy_tag_witness :
+    (tagRun (bs "fwd") rndW (constructLazy 3) [0, 1, 0, 1, 0, 1, 2]).reqs =
+        [.has tagW, .has tagX, .has tagX] ∧
+      (tagRun (bs "fwd") rndW (constructLazy 3) [0, 1, 0, 1, 0, 1, 2]).cell = some tagX ∧
+      distinctTags (tagRun (bs "fwd") rndW (constructLazy 3) [0, 1, 0, 1, 0, 1, 2]) = 2 ∧
+      (tagRun (bs "fwd") rndW (constructLazy 3) [0, 0, 0, 1, 2]).reqs =
+        [.has tagW, .has tagW, .has tagW] ∧
+      (runLoop [({ cfgWhttps with tag := tagW }, ctxW), ({ cfgWhttps with tag := tagX }, ctxW)]
+          2 0 reqPlain).map isForwarded = [true, true] ∧
+      (tagRun (bs "fwd") rndW (constructEager (bs "fwd") rndW 3) [0, 1, 0, 1, 0, 1, 2]).reqs =
+        [.has tagW, .has tagW, .has tagW] ∧
+      (runLoop [({ cfgWhttps with tag := tagW }, ctxW), ({ cfgWhttps with tag := tagW }, ctxW)]
+          2 0 reqPlain).map isLoopRefusal = [false, true] := by
+  decide +kernel
+
+/-! ## K. The CONNECT head of a request is that request's, whoever else is dialling
+
+  `Model/C18Dial.lean`: between the modifier stack and the upstream HTTP(S) proxy a CONNECT passes
+  `connectHTTP` in three steps (assign the header set to the dialer, dial, write the head), interleaved
+  at will with the steps of the other CONNECT requests of the instance.  The code builds a dialer per
+  request; the harness hammers one instance (and a two-instance CONNECT loop) with 8–16 clients whose
+  CONNECTs carry chains built around a marker of their own and judges every head the upstream proxy
+  recorded. -/
+
+/-- Under ANY schedule the header set a request's head goes out with is the one the modifier stack
+    produced for THAT request (`hdr k`): per-request result, independent of the schedule. -/
+theorem c18_connect_head_schedule_independent {α : Type} (hdr : Nat → α) (sched : List Nat) (k : Nat)
+    (h : α) (hs : sentHdr (connRun false hdr (DialState.init α) sched) k = some h) : h = hdr k := by
+  have hinv := dialOwn_run (hdr := hdr) sched (dialOwn_init hdr)
+  unfold sentHdr at hs
+  cases hp : (connRun false hdr (DialState.init α) sched).pcs k with
+  | sent h' =>
+    rw [hp] at hs
+    have he : h' = h := by simpa [ConnPc.sentOf] using hs
+    exact he ▸ (hinv k).2.2 h' hp
+  | idle => rw [hp] at hs; cases hs
+  | assigned => rw [hp] at hs; cases hs
+  | dialled => rw [hp] at hs; cases hs
+
+/-- … so two schedules of the same requests send the same head for every request both complete -/
+theorem c18_connect_head_two_schedules {α : Type} (hdr : Nat → α) (s₁ s₂ : List Nat) (k : Nat) (h₁ h₂ : α)
+    (e₁ : sentHdr (connRun false hdr (DialState.init α) s₁) k = some h₁)
+    (e₂ : sentHdr (connRun false hdr (DialState.init α) s₂) k = some h₂) : h₁ = h₂ :=
+  (c18_connect_head_schedule_independent hdr s₁ k h₁ e₁).trans
+    (c18_connect_head_schedule_independent hdr s₂ k h₂ e₂).symm
+
+/-- Pipeline level: concurrent CONNECTs `reqs` through one instance, any schedule — the head the
+    upstream proxy receives for request `k` carries the chain of request `k` followed by the instance's
+    element (nothing of another request), and when it comes back to the instance it is not passed again:
+    every loop is cut at its first repetition also under load. -/
+theorem c18_concurrent_connect_heads (cfg : Cfg) (ctx : Nat → Ctx) (reqs : Nat → ConnectReq)
+    (sched : List Nat) {k : Nat} {head : OutMsg}
+    (hs : sentHdr (connRun false (fun i => connectHead (processConnect cfg (ctx i) (reqs i)))
+      (DialState.init _) sched) k = some (some head))
+    (hr : rulesAvoidVia cfg.connectRules = true) (hn : viaNominated (reqs k).fields = false)
+    (ht : TagClean cfg.tag) {ctx' : Ctx} (hn' : viaNominated (reinjectConnect head).fields = false) :
+    (∃ v, outVia head = [v] ∧
+        viaElements [v] = viaElements (viaLines (reqs k).fields) ++ [ownElement cfg.tag (reqs k).minor]) ∧
+      connectPassed (processConnect cfg ctx' (reinjectConnect head)) = false ∧
+      (connectReachesVia cfg (reinjectConnect head) = true →
+        processConnect cfg ctx' (reinjectConnect head) = .refused 400 .loop) := by
+  have hk := c18_connect_head_schedule_independent _ sched k _ hs
+  exact ⟨c18_connect_head_appends hk.symm hr hn ht, c18_connect_self_loop_terminates hk.symm hr hn'⟩
+
+example : sentHdr (connRun false (fun i => connectHead (processConnect cfgXhttp ctxW (dialReqs i)))
+      (DialState.init _) [0, 1, 0, 0, 1, 1]) 0 =
+    some (connectHead (processConnect cfgXhttp ctxW (dialReqs 0))) := rfl
+
+/-- Witness (NOT the code): ONE dialer kept per proxy URL whose header slot every request assigns before
+    dialling and reads after it.  Instance X (`tagX`), upstream A (`tagW`); request 0 came through `fred`,
+    request 1 has already passed A.  Both assign before either sends: request 0's head goes out with
+    request 1's chain — another exchange's data — and A refuses it `400 loop` although request 0 never
+    passed A; its own head would have been passed.  One after the other both heads are right, and with a
+    dialer per request (the code) they are right under the same schedule. -/
+theorem c18_shared_dialer_witness :
+    ((sentHdr (connRun true (fun i => connectHead (processConnect cfgXhttp ctxW (dialReqs i)))
+        (DialState.init _) [0, 1, 0, 0, 1, 1]) 0).join.map fun h => viaElements (outVia h)) =
+        some [bs "1.1 fwd-0123456789abcdef0123", ownElement tagX 1] ∧
+      ((connectHead (processConnect cfgXhttp ctxW (dialReqs 0))).map fun h => viaElements (outVia h)) =
+        some [bs "1.0 fred", ownElement tagX 1] ∧
+      ((sentHdr (connRun true (fun i => connectHead (processConnect cfgXhttp ctxW (dialReqs i)))
+        (DialState.init _) [0, 1, 0, 0, 1, 1]) 0).join.map fun h =>
+          isConnectLoopRefusal (processConnect cfgWhttp ctxW (reinjectConnect h))) = some true ∧
+      ((connectHead (processConnect cfgXhttp ctxW (dialReqs 0))).map fun h =>
+          connectPassed (processConnect cfgWhttp ctxW (reinjectConnect h))) = some true ∧
+      ((sentHdr (connRun true (fun i => connectHead (processConnect cfgXhttp ctxW (dialReqs i)))
+        (DialState.init _) [0, 0, 0, 1, 1, 1]) 0).join.map fun h => viaElements (outVia h)) =
+        some [bs "1.0 fred", ownElement tagX 1] ∧
+      ((sentHdr (connRun false (fun i => connectHead (processConnect cfgXhttp ctxW (dialReqs i)))
+        (DialState.init _) [0, 1, 0, 0, 1, 1]) 0).join.map fun h => viaElements (outVia h)) =
+        some [bs "1.0 fred", ownElement tagX 1] := by
   decide +kernel
 
 end C18
